@@ -576,6 +576,78 @@ func runC13(c *harness.Case) {
 			}
 		}
 	}
+	{
+		// streams whose scan cannot finish: the request's context is already cancelled (every case), or one partition's
+		// iterator keeps failing until the scanner gives up (every 10th case, ~4 s of scanner backoff). Whatever the scan
+		// did, the stream ends with exactly one terminator, last, and a terminator without an error certifies a
+		// complete listing.
+		R := n.Committed()
+		want := s.m.Snapshot(full, fullEnd, R)
+		endsOnce := func(what string, batches []*proto.StreamRangeResponse) bool {
+			term, lastErr := 0, ""
+			var kvs []*proto.KeyValue
+			for i, b := range batches {
+				if b == nil || b.RangeResponse == nil {
+					c.Violatef("C13 stream-message-without-header", wit(), "%s at revision %d: message #%d has no range response", what, R, i)
+					return false
+				}
+				if b.RangeResponse.More {
+					if term > 0 {
+						c.Violatef("C13 stream-data-after-terminator what=failing-scan", wit(), "%s at revision %d: data batch #%d follows the terminator", what, R, i)
+						return false
+					}
+					kvs = append(kvs, b.RangeResponse.Kvs...)
+					continue
+				}
+				term++
+				lastErr = b.Err
+			}
+			if term != 1 {
+				c.Violatef("C13 stream-terminator-count what=failing-scan", wit(), "%s at revision %d: %d terminators (exactly one, last, expected; the last one carries error %q)", what, R, term, lastErr)
+				return false
+			}
+			if lastErr != "" {
+				c.Stat("failed_streams_ending_with_one_error_terminator", 1)
+				return true
+			}
+			return sameSet(what, R, want, kvs)
+		}
+		cctx, cancel := context.WithCancel(harness.Ctx)
+		cancel()
+		if ch, err := n.B.ListByStream(cctx, encS, encE, R); err == nil {
+			var batches []*proto.StreamRangeResponse
+			for m := range ch {
+				batches = append(batches, m)
+			}
+			if !endsOnce("ListByStream(whole interval, context already cancelled)", batches) {
+				return
+			}
+		} else {
+			c.Stat("streams_refused_outright_for_a_cancelled_context", 1)
+		}
+		if c.Index%10 == 7 {
+			recs, derr := harness.Dump(eng.KV, encS, encE)
+			if derr == nil && len(recs) > 2 {
+				N := 1 + r.Intn(len(recs))
+				var bad atomic.Value
+				iw.IterFault = func(start, end []byte, k int) error {
+					if k >= N && bad.Load() == nil {
+						bad.Store(string(start))
+					}
+					if v, _ := bad.Load().(string); v == string(start) && k >= N {
+						return errors.New("injected persistent iterator error")
+					}
+					return nil
+				}
+				batches, err := streamAll(n, encS, encE, R)
+				iw.IterFault = nil
+				if err == nil && !endsOnce("ListByStream(whole interval, one partition's iterator keeps failing)", batches) {
+					return
+				}
+				c.Stat("streams_run_against_a_persistently_failing_iterator", 1)
+			}
+		}
+	}
 	c.Stat("borders", int64(len(borders)))
 	c.Stat("borders_inside_a_keys_versions", int64(inside))
 	c.AddSet("engines", kind)
